@@ -46,6 +46,7 @@ def run(ck):
 
 
 def x1_panic_sites(ck, ctx):
+    # (runs on raw bodies: see the attribute set below)
     prog = ck.prog
     cg = CallGraph(prog)
     ck.body(ANALYZE, "X1")
@@ -105,6 +106,9 @@ def x1_panic_sites(ck, ctx):
             if key not in sites:
                 # not a property violation: a stale entry discharges nothing; reported in the evidence only
                 ck.extra.setdefault("stale_reviews", []).append("%s:%s" % (fn, key))
+
+
+x1_panic_sites.raw_bodies = True
 
 
 def x2_interrupt_discipline(ck):
@@ -357,6 +361,21 @@ def x5_x6_control_and_sink(ck):
     drops = [(bb, blk["term"]) for bb, blk in enumerate(ctl.blocks) if blk["term"]["k"] == "drop" and not blk.get("cleanup") and "mpsc::Receiver" in blk["term"]["ty"]]
     ck.req(bool(drops) and all(join[0] in dom.get(bb, ()) for bb, _ in drops), "X5.receiver_outlives_join", "control thread", ctl.where(),
            "the control receiver can be dropped before the search thread is joined: its final send(Stop).unwrap() could panic")
+    # the search thread tells the control thread that it is done on every path: otherwise a search that finishes by itself
+    # leaves the control thread blocked in recv() and the caller's join never returns
+    done = 0
+    for cn in prog.closures_of(ANALYZE):
+        cb = prog.body(cn)
+        if not any(callee_name(t) == ITER for bb, t in live_calls(cb)):
+            continue
+        done += 1
+        stb = TermBuilder(prog, cb)
+        sends = [bb for bb, t in live_calls(cb) if callee_name(t).endswith("mpsc::Sender::<T>::send") and "ControlEvent" in " ".join(t.get("generics", []))
+                 and any("Stop" in show(stb.operand(a)) for a in t["args"][1:])]
+        ck.req(bool(sends) and cfg.must_pass(cb, [0], cfg.exits(cb), sends), "X5.completion_signalled", cn.split("::")[-1], cb.where(),
+               "the search thread can return without sending Stop to the control thread: a search that ends by itself on that path never "
+               "lets the control thread (and the caller's join) finish")
+    ck.floor("X5", done, 1, "search-thread closures calling analyze_iterative")
     # X6: the callback closure discards the send result
     sinks = 0
     for cn in prog.closures_of(ANALYZE):
@@ -398,3 +417,32 @@ def x7_iteration_loop(ck):
     # exactly one loop over that range; recursion depth limited by max_depth (search_depth = depth - stop_short + 1)
     heads = [bb for bb, t in live_calls(it) if is_iter_next(callee_name(t)) and "Range" in callee_name(t)]
     ck.req(len(heads) == 1, "X7.single_loop", "analyze_iterative", it.where(), "expected one deepening loop, found %d" % len(heads))
+    # a root without legal moves yields an empty line in every iteration: the iteration that sees the empty line must leave the
+    # loop (without a depth limit the range is 0..usize::MAX and a one-node iteration never reaches the 10000-node poll)
+    if len(heads) == 1:
+        head = heads[0]
+        n_dec = 0
+        for bb, blk in enumerate(it.blocks):
+            t = blk["term"]
+            if t["k"] != "switch" or blk.get("cleanup") or bb not in cfg.reachable(it, [head]):
+                continue
+            c = tb.operand(t["discr"])
+            neg = False
+            while c[0] == "un" and c[1] == "Not":
+                c = c[2]
+                neg = not neg
+            if not (c[0] == "call" and c[1].endswith("::is_empty") and any(x[0] == "call" and x[1].endswith("::iter_moves") for x in walk(c))):
+                continue
+            if head not in cfg.reachable(it, [bb]):
+                continue   # already outside the loop
+            n_dec += 1
+            zero = [x[1] for x in t["cases"] if x[0] == 0]
+            empty_edge = zero[0] if neg and zero else (t["otherwise"] if not neg else None)
+            if empty_edge is None:
+                ck.fail("X7.terminal_root", "bb%d" % bb, it.where(t.get("line")), "cannot tell which edge of the emptiness test is the empty one")
+                continue
+            stays = head in cfg.reachable(it, [empty_edge])
+            ck.req(not stays, "X7.terminal_root", "empty line leaves the loop", it.where(t.get("line")),
+                   "an iteration that finds no line (root without legal moves) can go on to the next depth: without a depth limit the search of a "
+                   "stalemated or mated root never ends and never polls Stop")
+        ck.floor("X7", n_dec, 1, "emptiness tests of the reported line inside the deepening loop")
